@@ -382,6 +382,41 @@ def eval_configs(ctx, case):
     return Verdict.held(obs, tags=["configs"])
 
 
+def fixed_tree_cases():
+    """deterministic witness trees (one per workload dimension learned from a seeded change or a repaired defect)"""
+    cases = []
+    # fixed trees: two nested recursive packages with different selection, plus unrelated recursive packages whose import paths sort
+    # between them ('-' and '.' sort before '/'): the nearest recursive ancestor decides, whatever order the packages are visited in
+    for j in range(3):
+        ndirs, npk = {"t": "go"}, {}
+        for fam in ("api", "store", "zeta")[: 2 + j % 2]:
+            for d in ("t/%s" % fam, "t/%s/inner" % fam, "t/%s/inner/leaf" % fam, "t/%s-gen" % fam, "t/%s.v2" % fam, "t/%s-gen/sub" % fam):
+                ndirs[d] = "go"
+            npk["t/%s" % fam] = {"recursive": True, "all": True, "structname": "Outer_{{.InterfaceName}}"}
+            npk["t/%s/inner" % fam] = {"recursive": True, "include-interface-regex": "^Svc", "structname": "Inner_{{.InterfaceName}}"}
+            npk["t/%s-gen" % fam] = {"recursive": True, "all": True, "structname": "Gen_{{.InterfaceName}}"}
+            if j != 1:
+                npk["t/%s.v2" % fam] = {"recursive": True, "include-interface-regex": "Helper", "structname": "V2_{{.InterfaceName}}"}
+        cases.append({"kind": "tree", "i": 9700 + j, "dirs": ndirs, "pkcfg": npk, "excl_root": None, "root_recursive": False})
+    # fixed trees: a recursive package nested under another one, next to a sibling whose directory name merely extends its name
+    pdirs = {"t": "go", "t/store": "go", "t/store/sub": "go", "t/storetest": "go", "t/storetest/deep": "go", "t/sto": "go"}
+    for j, (inner_cfg, outer_excl) in enumerate((({"recursive": True, "all": True, "structname": "R1_{{.InterfaceName}}"}, None),
+                                                  ({"recursive": True, "all": True, "structname": "R1_{{.InterfaceName}}", "exclude-subpkg-regex": ["sub$"]}, ["storetest$"]))):
+        outer = {"recursive": True, "include-interface-regex": "^Svc", "structname": "R0_{{.InterfaceName}}"}
+        if outer_excl:
+            outer["exclude-subpkg-regex"] = outer_excl
+        cases.append({"kind": "tree", "i": 9600 + j, "dirs": pdirs, "pkcfg": {"t": outer, "t/store": inner_cfg}, "excl_root": None, "root_recursive": False})
+    # fixed trees: every entry of an exclusion list is its own expression (flags, anchors and alternations do not reach the neighbours)
+    fdirs = {"t": "go", "t/svc0": "go", "t/svc0/internal0": "go", "t/svc0/core0": "go", "t/svc0/api0": "go", "t/svc0/api0/gen0": "go", "t/lib0": "go", "t/lib0/util0": "go", "t/lib0/mocks0": "go"}
+    for j, lst in enumerate([["(?i)/INTERNAL", "/CORE"], ["(?i)zzz", "/API", "UTIL"], ["/CORE", "(?i)/INTERNAL"], ["^internal0", "core0$"], ["api0$", "^example.com/m/t/lib0/u"], ["(?i)/MOCKS", "/Core0", "/gen0$"]]):
+        for where in ("root", "pkg"):
+            c = {"recursive": True, "all": True, "structname": "R0_{{.InterfaceName}}"}
+            if where == "pkg":
+                c["exclude-subpkg-regex"] = lst
+            cases.append({"kind": "tree", "i": 9000 + j * 2 + (where == "pkg"), "dirs": fdirs, "pkcfg": {"t": c}, "excl_root": lst if where == "root" else None, "root_recursive": False})
+    return cases
+
+
 def eval_case(ctx, case):
     return {"table": eval_table, "tree": eval_tree, "configs": eval_configs}[case["kind"]](ctx, case)
 
@@ -412,22 +447,7 @@ def body(ctx, replay=None):
                     c["exclude-interface-regex"] = exc[d]
                 pk[d] = c
             cases.append({"kind": "tree", "i": 9500 + j, "dirs": rdirs, "pkcfg": pk, "excl_root": None, "root_recursive": False})
-        # fixed trees: a recursive package nested under another one, next to a sibling whose directory name merely extends its name
-        pdirs = {"t": "go", "t/store": "go", "t/store/sub": "go", "t/storetest": "go", "t/storetest/deep": "go", "t/sto": "go"}
-        for j, (inner_cfg, outer_excl) in enumerate((({"recursive": True, "all": True, "structname": "R1_{{.InterfaceName}}"}, None),
-                                                      ({"recursive": True, "all": True, "structname": "R1_{{.InterfaceName}}", "exclude-subpkg-regex": ["sub$"]}, ["storetest$"]))):
-            outer = {"recursive": True, "include-interface-regex": "^Svc", "structname": "R0_{{.InterfaceName}}"}
-            if outer_excl:
-                outer["exclude-subpkg-regex"] = outer_excl
-            cases.append({"kind": "tree", "i": 9600 + j, "dirs": pdirs, "pkcfg": {"t": outer, "t/store": inner_cfg}, "excl_root": None, "root_recursive": False})
-        # fixed trees: every entry of an exclusion list is its own expression (flags, anchors and alternations do not reach the neighbours)
-        fdirs = {"t": "go", "t/svc0": "go", "t/svc0/internal0": "go", "t/svc0/core0": "go", "t/svc0/api0": "go", "t/svc0/api0/gen0": "go", "t/lib0": "go", "t/lib0/util0": "go", "t/lib0/mocks0": "go"}
-        for j, lst in enumerate([["(?i)/INTERNAL", "/CORE"], ["(?i)zzz", "/API", "UTIL"], ["/CORE", "(?i)/INTERNAL"], ["^internal0", "core0$"], ["api0$", "^example.com/m/t/lib0/u"], ["(?i)/MOCKS", "/Core0", "/gen0$"]]):
-            for where in ("root", "pkg"):
-                c = {"recursive": True, "all": True, "structname": "R0_{{.InterfaceName}}"}
-                if where == "pkg":
-                    c["exclude-subpkg-regex"] = lst
-                cases.append({"kind": "tree", "i": 9000 + j * 2 + (where == "pkg"), "dirs": fdirs, "pkcfg": {"t": c}, "excl_root": lst if where == "root" else None, "root_recursive": False})
+        cases += fixed_tree_cases()
         cases += [gen_configs_case(ctx.rng, i) for i in range(nc)]
         ctx.exhaustive = False
     ctx.run_cases(cases, eval_case)
